@@ -277,6 +277,8 @@ def gen_case(rng, tier):
         ids += [''.join(rng.choice('0123456789abcdefABCDEFg\n') for _ in range(rng.choice([23, 24, 24, 24, 25])))
                 for _ in range(rng.choice([0, 1, 2]))]
         return {'kind': 'ids', 'ids': ids}
+    if rng.random() < 0.07:
+        return {'kind': 'xlate', 'ops': gen_ops(rng, tier)}
     if rng.random() < 0.12:
         return {'kind': 'codec', 'values': [enc(rand_value(rng)) for _ in range(rng.choice([1, 2, 4, 6]))]}
     return {'ops': gen_ops(rng, tier), 'pretty': rng.random() < 0.3, 'backup': rng.random() < 0.7}
@@ -326,7 +328,7 @@ def shrink(case):
     ops = case['ops']
     n = len(ops)
     only = case.get('only')
-    if only is None or len(only) > 1:
+    if case.get('kind') != 'xlate' and (only is None or len(only) > 1):
         for name in (only or ['jmem', 'jfile', 'api', 'redis', 'mongo']):
             yield dict(case, only=[name])
     for size in (n // 2, n // 4, 2, 1):
